@@ -38,16 +38,16 @@ var profiles = map[string]Profile{
 		Faults: map[string]int{"isolate-leader": 6, "isolate-any": 2, "oneway": 4, "split": 3, "stall": 4, "break": 3,
 			"restart": 3, "crash-vote": 4, "transfer": 2, "member": 1, "heal": 2}},
 	"load": {MinNodes: 3, MaxNodes: 5, Steps: 10, Clients: 8, MaxIDs: 5, DelayProb: 0.05,
-		Ops: map[string]int{"update": 8, "read": 2, "dirty": 2, "barrier": 1},
+		Ops:    map[string]int{"update": 8, "read": 2, "dirty": 2, "barrier": 1},
 		Faults: map[string]int{"isolate-leader": 3, "stall": 2, "break": 2, "restart": 2, "crash": 2, "transfer": 3, "snapshot": 3, "selfdemote": 1, "heal": 2}},
 	"member": {MinNodes: 1, MaxNodes: 4, Steps: 16, Clients: 3, MaxIDs: 6, DelayProb: 0.05,
-		Ops: map[string]int{"update": 6, "read": 1, "barrier": 1},
+		Ops:    map[string]int{"update": 6, "read": 1, "barrier": 1},
 		Faults: map[string]int{"member": 10, "isolate-leader": 3, "transfer": 3, "crash": 2, "restart": 1, "stall": 2, "snapshot": 1, "heal": 2, "tnow": 3}},
 	"snapshot": {MinNodes: 3, MaxNodes: 4, Steps: 14, Clients: 5, MaxIDs: 5, DelayProb: 0.05,
-		Ops: map[string]int{"update": 10, "read": 1, "dirty": 1},
+		Ops:    map[string]int{"update": 10, "read": 1, "dirty": 1},
 		Faults: map[string]int{"snapshot": 10, "isolate-any": 4, "stall": 2, "restart": 3, "crash": 2, "member": 2, "transfer": 1, "heal": 3}},
 	"transfer": {MinNodes: 3, MaxNodes: 5, Steps: 16, Clients: 4, MaxIDs: 6, DelayProb: 0.05,
-		Ops: map[string]int{"update": 6, "read": 1, "barrier": 1},
+		Ops:    map[string]int{"update": 6, "read": 1, "barrier": 1},
 		Faults: map[string]int{"transfer": 10, "stall": 3, "oneway": 2, "isolate-any": 2, "break": 2, "member": 2, "heal": 2}},
 	"everything": {MinNodes: 3, MaxNodes: 5, Steps: 16, Clients: 6, MaxIDs: 6, DelayProb: 0.08,
 		Ops: map[string]int{"update": 8, "read": 2, "dirty": 1, "barrier": 1},
@@ -214,7 +214,9 @@ func (e *engineA) finish() error {
 	e.cl.recoverCrashed()
 	for _, id := range e.cl.nodeIDs() {
 		n := e.cl.node(id)
-		if n.stopped && !e.parked[id] {
+		// the operator restarts nodes that are down: stopped by a fault that
+		// could not restart them, or exited on their own
+		if (n.stopped || atomic.LoadInt32(&n.exited) != 0) && !n.crashed && !e.parked[id] {
 			if _, err := e.cl.start(id, n.dir); err != nil {
 				e.rc.emit(&ev.Rec{K: "restart-failed", Cid: e.cl.cid, Nid: id, Err: err.Error()})
 			}
@@ -223,6 +225,7 @@ func (e *engineA) finish() error {
 	e.rc.emit(&ev.Rec{K: "faults-stopped"})
 	start := atomic.LoadInt64(&e.ticks)
 	const bound = 400
+	extFactor := int64(e.cfg.paramInt("ext", 4))
 	state := "not-converged"
 	var why string
 	for {
@@ -237,7 +240,7 @@ func (e *engineA) finish() error {
 			}
 			break
 		}
-		if el > 10*bound {
+		if el > extFactor*bound {
 			break
 		}
 		time.Sleep(e.hb() / 2)
